@@ -12,7 +12,8 @@ from symdb import ConcDB, SCHEMA
 class Frame:
     """frame of a pipeline prefix, computed by the reference itself on an empty instance"""
 
-    def __init__(self, pipeline, lets=(), schema=None):
+    def __init__(self, pipeline, lets=None, schema=None):
+        lets = CFG.get("lets", ()) if lets is None else lets
         self.schema = schema or SCHEMA
         db = ConcDB(self.schema, {})
         prog = Prog(pipeline, lets=lets)
@@ -202,6 +203,50 @@ HEADS = {
 }
 
 
+def t_join_self_agg(f):
+    """join with a second reference to the same let-bound relation (aggregated), on the first column"""
+    x = CFG.get("self")
+    need(x and sum(1 for c in f.cols if c.name == "a") == 1 and all(c.rel != "y" for c in f.cols))
+    return [Join([From(x), Group(["a"], Aggregate(m=Fn("max", C("b"))))], "==a", side="left", alias="y")]
+
+
+def t_join_self(f):
+    x = CFG.get("self")
+    need(x and sum(1 for c in f.cols if c.name == "a") == 1 and all(c.rel != "y" for c in f.cols))
+    return [Join(x, "==a", alias="y")]
+
+
+ALPHABET_LET = dict(ALPHABET, join_self_agg=t_join_self_agg, join_self=t_join_self)
+
+LETS = {
+    "sorted": [From("t"), Select("a", "b", "c"), Sort("a")],
+    "sorted_take": [From("t"), Select("a", "b", "c"), Sort("-b"), Take(3)],
+    "filtered_sorted": [From("t"), Select("a", "b", "c"), Filter(C("a") > 0), Sort("c")],
+    "computed_sorted": [From("t"), Select("a", "b"), Derive(k=C("a") + C("b")), Sort("-k"), Select("a", "b", "k")],
+    "plain": [From("t"), Select("a", "b", "c"), Filter(C("b") != None)],  # noqa: E711
+}
+
+
+def enumerate_let_family(max_len, let_names=None, only_names=None):
+    """programs `let x = (...)  from x | <templates>`: the let-bound relation may carry a sort and may be
+    referenced a second time from a join"""
+    global CFG
+    names = sorted(only_names or ALPHABET_LET)
+    old = dict(CFG)
+    try:
+        for ln in (let_names or sorted(LETS)):
+            CFG.update({"t": "x", "self": "x", "lets": [("x", LETS[ln])]})
+            for L in range(0, max_len + 1):
+                for seq in itertools.product(names, repeat=L):
+                    pipe = build("wild", seq, ALPHABET_LET)
+                    if pipe is None:
+                        continue
+                    yield (f"let_{ln}:" + ">".join(seq), Prog(pipe, lets=[("x", LETS[ln])]))
+    finally:
+        CFG.clear()
+        CFG.update(old)
+
+
 def build(head, names, alphabet=ALPHABET):
     """instantiate a sequence of template names; None if some template does not apply"""
     _ctr[0] = 0
@@ -227,10 +272,36 @@ def enumerate_family(max_len, heads=("sel", "wild"), alphabet=ALPHABET, only_nam
                 yield (head + ":" + ">".join(seq), Prog(pipe))
 
 
+def targeted_let_family():
+    """sorted let-bound relation, then the main pipeline sorts differently, takes and groups"""
+    sorts = ["sort_desc2", "sort_last_desc", "sort_asc"]
+    takes = ["take_n", "take_range", "take_open"]
+    groups = ["group_agg", "group_take", "agg", "distinct"]
+    out = []
+    for tag, prog in enumerate_let_family(3, only_names=sorts + takes + groups):
+        seq = tag.split(":", 1)[1].split(">")
+        if len(seq) == 3 and seq[0] in sorts and seq[1] in takes and seq[2] in groups:
+            out.append((tag, prog))
+    return out
+
+
 def family_c01(tier, seed):
     """quick: all pipelines of <=2 templates on both heads + a seed-rotated slice of length 3;
     thorough: all of length <=3 on the explicit-column head, <=2 on the wildcard head, plus a slice of length 4"""
     out = []
+    # (positional window functions directly on a let-bound relation are left out: whether the relation's own
+    #  sort also orders `row_number` there is not documented)
+    out += [x for x in enumerate_let_family(1) if "rownum" not in x[0]]
+    letn = ["sort_desc2", "sort_last_desc", "take_n", "take_range", "filter_gt", "group_agg", "group_take", "join_self_agg", "join_self",
+            "join_left", "select_2", "derive_add", "agg"]
+    l2 = list(enumerate_let_family(2, only_names=letn))
+    l3 = list(enumerate_let_family(3, let_names=["sorted", "sorted_take"], only_names=["sort_desc2", "take_n", "group_agg", "group_take", "filter_gt", "join_self_agg"]))
+    if tier == "quick":
+        rr = random.Random(seed + 1)
+        rr.shuffle(l2)
+        rr.shuffle(l3)
+        l2, l3 = l2[:300], l3[:150]
+    out += l2 + l3 + targeted_let_family()
     if tier == "quick":
         out += list(enumerate_family(2))
         rnd = random.Random(seed)
@@ -497,9 +568,18 @@ def family_c03(tier, seed):
         ("x:let-sorted-derive-select", Prog([From("x"), Derive(z=C("a") + 1), Select("z")], lets=[("x", [From("t"), Select("a", "b"), Sort("-b")])])),
     ]
     out += lets
+    letn = ["sort_desc2", "sort_last_desc", "sort_asc", "take_n", "take_range", "take_open", "filter_gt", "group_agg", "group_take", "join_self_agg",
+            "join_self", "join_left", "select_2", "select_last", "derive_add"]
+    out += list(enumerate_let_family(2, let_names=["sorted", "sorted_take", "filtered_sorted", "computed_sorted"], only_names=letn))
+    l3 = list(enumerate_let_family(3, let_names=["sorted", "sorted_take"], only_names=["sort_desc2", "take_n", "take_range", "group_agg", "group_take", "filter_gt", "join_self_agg", "select_2"]))
+    if tier == "quick":
+        rr = random.Random(seed + 1)
+        rr.shuffle(l3)
+        l3 = l3[:200]
+    out += [x for x in l3 if x[0].count(">") == 2] + targeted_let_family()
     if tier == "quick":
         rnd = random.Random(seed)
-        head = [x for x in out if x[0].startswith("x:") or x[0].count(">") <= 1]
+        head = [x for x in out if x[0].startswith("x:") or x[0].startswith("let_") or x[0].count(">") <= 1]
         rest = [x for x in out if not (x[0].startswith("x:") or x[0].count(">") <= 1)]
         rnd.shuffle(rest)
         out = head + rest[:500]
@@ -675,6 +755,15 @@ def family_c09(tier, seed):
             ("x:derive-named-_expr_1", Prog([From("table_0"), Select("a", "_expr_0"), Derive(_expr_1=C("a") + 1), Group(["a"], Sort("_expr_0"), Take(1))])),
             ("x:two-ctes", Prog([From("table_0"), Select("a", "c"), Derive(x=C("a") + 1), Filter(C("x") > 1), Sort("c"), Take(2), Join("table_1", "==a"), Filter(C("table_1._expr_0") > 0)])),
             ("x:subpipeline-join", Prog([From("table_0"), Select("a", "c"), Join([From("table_1"), Derive(k=C("a") + 1), Filter(C("k") > 1)], "==a")])),
+            # relation instances that need an invented alias next to user relations named like generated ones
+            ("x:dup-table-no-alias", Prog([From("table_2"), Join("table_0", C("table_2.a") == C("table_0.a")), Join("table_2", C("table_0.c") == C("that.d"))])),
+            ("x:dup-table-no-alias-1", Prog([From("table_2"), Join("table_1", C("table_2.a") == C("table_1.a")), Join("table_2", C("table_1.a") == C("that.d"))])),
+            ("x:self-join-table_0", Prog([From("table_0"), Join("table_0", C("this.a") == C("that.c"))])),
+            ("x:self-join-table_1-after-cte", Prog([From("table_0"), Select("a", "c"), Derive(x=C("a") + 1), Filter(C("x") > 1), Join("table_1", "==a"), Join("table_1", C("table_0.c") == C("that.a"))])),
+            ("x:alias-like-generated", Prog([From("table_2", alias="table_1"), Join("table_2", C("table_1.a") == C("that.d"))])),
+            ("x:let-named-table_0", Prog([From("table_0"), Join("table_2", "==a")], lets=[("table_0", [From("table_1"), Filter(C("a") > 0)])])),
+            ("x:let-named-table_0-cte", Prog([From("table_2"), Derive(x=C("a") + 1), Filter(C("x") > 1), Join("table_0", "==a"), Select("table_2.x", "table_0._expr_0")],
+                                            lets=[("table_0", [From("table_1"), Filter(C("a") > 0)])])),
         ]
         out += extra
     finally:
